@@ -316,6 +316,12 @@ def _enclosing_stmt_block(node):
     return _enclosing(node, (ast.If, ast.FunctionDef))
 
 
+def _defs_ok(fn, name):
+    """The shift count is defined by plain single-target assignments (what _shift_count_iv can follow)."""
+    defs = [st for st in ast.walk(fn) if isinstance(st, (ast.Assign, ast.AugAssign)) and any(isinstance(t, ast.Name) and t.id == name for t in (st.targets if isinstance(st, ast.Assign) else [st.target]))]
+    return bool(defs)
+
+
 def rotation_obligations(ctx, rule, decided_elsewhere=()):
     """C15.R5: every element produced by the rotation formulas is a byte (intervals; names resolved by def-use, not by spelling).
     `decided_elsewhere`: methods whose kernel was folded and compared with the reference (shift counts r and 8-r with 1 <= r <= 7, masked high
@@ -344,8 +350,13 @@ def rotation_obligations(ctx, rule, decided_elsewhere=()):
                         if isinstance(x, ast.Subscript):
                             env[ast.unparse(x.value) + "[]"] = (0, 255)       # an element of a byte string
                     counts = [x.right.id for x in ast.walk(node.elt) if isinstance(x, ast.BinOp) and isinstance(x.op, (ast.LShift, ast.RShift)) and isinstance(x.right, ast.Name)]
-                    for nm in counts:
-                        env[nm] = _shift_count_iv(fi.node, nm, node)
+                    try:
+                        for nm in counts:
+                            env[nm] = _shift_count_iv(fi.node, nm, node)
+                    except Undecided:
+                        if meth in decided_elsewhere:
+                            continue       # kernel folded and compared with the reference by C15.R6 (shift counts r and 8-r, 1 <= r <= 7)
+                        raise
                     r = ev(node.elt, env)
                     ctx.ob(rule, fi, 0 <= r[0] and r[1] <= 255 and all(env[c][0] >= 1 and env[c][1] <= 7 for c in counts),
                            "the bit-pair rotation formula of %s yields bytes, with shift counts in 1..7 (%s; counts %s)" % (meth, r, {c: env[c] for c in counts}), key="%s formula" % meth, node=node)
